@@ -209,7 +209,7 @@ def replay(prop, path):
         import subprocess
         r = subprocess.run([HARNESS_BIN, "total", "--one", path], capture_output=True, text=True)
         print(r.stdout)
-        if r.returncode == 1:
+        if r.returncode in (1, 42):
             print("VIOLATION property=%s replay=%s  (%s)" % (prop, path, data.get("signature")))
             return 1
         if r.returncode == 0:
@@ -848,7 +848,23 @@ def check_c07(tier, t0):
     args += ["--rule-texts", rule_texts]
     if tier == "thorough":
         args.append("--thorough")
-    run_harness(args, timeout=5400)
+    import common
+    hang_file = out + ".hang"
+    if os.path.exists(hang_file):
+        os.remove(hang_file)
+    run_harness(args, timeout=5400, ok_codes=(0, 42))
+    if common.LAST_HARNESS_RC[0] == 42:
+        # a call did not return: the watchdog ended the harness and left the call and its session's begin record.
+        # Nothing else of this run is usable (the trace stops in mid-air), and nothing else is needed
+        h = json.load(open(hang_file))
+        b = h.get("begin") or {}
+        vio = [{"sig": "C07|hang|%s" % h.get("op"),
+                "replay": {"kind": b.get("kind"), "input": b.get("input"), "meta": b.get("meta"),
+                           "deviation": "hang:%s:no answer after %d ms" % (h.get("op"), h.get("after_ms", 0))}}]
+        log("[C07] the call %s of a %s session did not return within %d ms" % (h.get("op"), b.get("kind"), h.get("after_ms", 0)))
+        cov = {"states": 0, "transitions": 0, "traces_validated_against_impl": 0, "evaluations": 0, "distinct_nontrivial": 0,
+               "rule": "run ended by the watchdog at the first call that did not return", "samples": [{}], "exhaustive": False}
+        return report("C07", tier, "exploration", vio, cov, ["a call that has not returned after 60 s is a hang"], t0)
     s = json.load(open(out))
     tv = msglevel.validate_traces(wd, traces, cfg="Session.cfg", module="Session.tla")
     flagged = {r["id"]: r["dev"] for r in tv["results"]}
